@@ -209,3 +209,134 @@ Proof.
   intros H evs. destruct (wf_engine P H) as (Hnd & Hc & Hs & Hp & Hr).
   apply (not_all_done_enabled tid tid_eq_dec (instances P) (preds P) (succs P) Hc Hs Hp (ptg_rank P) Hr).
 Qed.
+
+(* ------------------------------------------- first match wins: wf_first_match *)
+Lemma data_inputs_ok_first G L f : data_inputs_ok G L f = true -> data_inputs_first G L f = true.
+Proof.
+  unfold data_inputs_first, data_inputs_ok. destruct (is_ctl f); [auto|].
+  destruct (has_inputs f); [|auto]. intros H. apply Nat.eqb_eq in H. rewrite H. reflexivity.
+Qed.
+
+Lemma task_ok_first_of P ids t : task_ok P ids t = true -> task_ok_first P ids t = true.
+Proof.
+  unfold task_ok, task_ok_first. destruct (env_of P t) as [[c env]|]; [|auto].
+  intros H. repeat (apply andb_true_iff in H; destruct H as [H ?]).
+  repeat (apply andb_true_iff; split); try assumption.
+  rewrite forallb_forall in *. intros f Hf. apply data_inputs_ok_first. auto.
+Qed.
+
+Theorem wf_program_first_match P : wf_program P = true -> wf_first_match P = true.
+Proof.
+  unfold wf_program, wf_first_match. intros H.
+  repeat (apply andb_true_iff in H; destruct H as [H ?]).
+  repeat (apply andb_true_iff; split); try assumption.
+  - rewrite forallb_forall in *. intros t Ht. apply task_ok_first_of. auto.
+  - apply andb_true_iff in H0. destruct H0 as [H0 ?]. apply andb_true_iff in H0. destruct H0. assumption.
+  - apply andb_true_iff in H0. destruct H0 as [H0 ?]. apply andb_true_iff in H0. destruct H0. assumption.
+  - apply andb_true_iff in H0. destruct H0 as [H0 ?]. assumption.
+Qed.
+
+Lemma wf_first_unpack P : wf_first_match P = true ->
+  NoDup (instances P)
+  /\ (forall t, In t (instances P) -> forall p, In p (preds P t) ->
+        In p (instances P) /\ count t (succs P p) = count p (preds P t))
+  /\ (forall t, In t (instances P) -> forall s, In s (succs P t) ->
+        In s (instances P) /\ count t (preds P s) = count s (succs P t))
+  /\ (forall t p, In t (instances P) -> In p (preds P t) -> ptg_rank P p < ptg_rank P t).
+Proof.
+  unfold wf_first_match. intros H.
+  repeat (apply andb_true_iff in H; destruct H as [H ?]).
+  rename H2 into Hnd, H1 into Htask.
+  apply andb_true_iff in H0. destruct H0 as [H0 Hord].
+  apply andb_true_iff in H0. destruct H0 as [Hlen Hmem].
+  assert (Htask' : forall t, In t (instances P) -> task_ok_first P (instances P) t = true)
+    by (apply forallb_forall; assumption).
+  split; [apply nodupb_NoDup; assumption|].
+  split; [|split].
+  - intros t Ht p Hp. specialize (Htask' t Ht). unfold task_ok_first in Htask'.
+    destruct (env_of P t) as [[c env]|]; [|discriminate].
+    repeat (apply andb_true_iff in Htask'; destruct Htask' as [Htask' ?]).
+    rename H1 into Hpr.
+    rewrite forallb_forall in Hpr. specialize (Hpr p Hp).
+    apply andb_true_iff in Hpr. destruct Hpr as [Hm Hc].
+    split; [apply mem_In; assumption|apply Nat.eqb_eq; assumption].
+  - intros t Ht s Hs. specialize (Htask' t Ht). unfold task_ok_first in Htask'.
+    destruct (env_of P t) as [[c env]|]; [|discriminate].
+    repeat (apply andb_true_iff in Htask'; destruct Htask' as [Htask' ?]).
+    rename H0 into Hsu.
+    rewrite forallb_forall in Hsu. specialize (Hsu s Hs).
+    apply andb_true_iff in Hsu. destruct Hsu as [Hm Hc].
+    split; [apply mem_In; assumption|apply Nat.eqb_eq; assumption].
+  - intros t p Ht Hp. unfold ptg_rank.
+    rewrite forallb_forall in Hmem. specialize (Hmem t Ht). apply mem_In in Hmem.
+    destruct (in_split_first t _ Hmem) as (l1 & l2 & Heq & Hn).
+    destruct (check_order_prefix P _ [] Hord l1 t l2 Heq p Hp) as [Hin|[]].
+    rewrite Heq. rewrite (findex_first t l1 l2 Hn). apply findex_lt. assumption.
+Qed.
+
+Lemma wf_first_engine P : wf_first_match P = true ->
+  NoDup (instances P)
+  /\ (forall p t, In p (instances P) -> In t (instances P) ->
+        count_occ tid_eq_dec (succs P p) t = count_occ tid_eq_dec (preds P t) p)
+  /\ (forall p s, In p (instances P) -> In s (succs P p) -> In s (instances P))
+  /\ (forall t p, In t (instances P) -> In p (preds P t) -> In p (instances P))
+  /\ (forall t p, In t (instances P) -> In p (preds P t) -> ptg_rank P p < ptg_rank P t).
+Proof.
+  intros H. destruct (wf_first_unpack P H) as (Hnd & Hpr & Hsu & Hrk).
+  split; [assumption|]. split; [|split; [|split]].
+  - intros p t Hp Ht. rewrite <- !count_count_occ.
+    destruct (in_dec tid_eq_dec p (preds P t)) as [Hin|Hnin].
+    + apply (Hpr t Ht p Hin).
+    + rewrite (count_zero_notin p _ Hnin).
+      destruct (in_dec tid_eq_dec t (succs P p)) as [Hin2|Hnin2]; [|apply count_zero_notin; assumption].
+      destruct (Hsu p Hp t Hin2) as [_ Hc]. rewrite (count_zero_notin p _ Hnin) in Hc.
+      pose proof (count_pos_in t _ Hin2). lia.
+  - intros p s Hp Hs. apply (Hsu p Hp s Hs).
+  - intros t p Ht Hp. apply (Hpr t Ht p Hp).
+  - assumption.
+Qed.
+
+Theorem first_no_task_begins_twice P : wf_first_match P = true ->
+  forall evs, NoDup (executed P evs).
+Proof.
+  intros H evs. destruct (wf_first_engine P H) as (Hnd & Hc & Hs & Hp & Hr).
+  apply (no_task_begins_twice tid tid_eq_dec (instances P) (preds P) (succs P) Hc Hs).
+Qed.
+
+Theorem first_only_instances_run P : wf_first_match P = true ->
+  forall evs t, In t (executed P evs) -> In t (instances P).
+Proof.
+  intros H evs t. destruct (wf_first_engine P H) as (Hnd & Hc & Hs & Hp & Hr).
+  apply (only_tasks_begin tid tid_eq_dec (instances P) (preds P) (succs P) Hc Hs).
+Qed.
+
+Theorem first_begin_after_preds_ended P : wf_first_match P = true ->
+  forall evs l1 l2 t, log tid (ptg_run P evs) = l2 ++ LBegin t :: l1 ->
+  forall p, In p (preds P t) -> In (LEnd p) l1.
+Proof.
+  intros H evs. destruct (wf_first_engine P H) as (Hnd & Hc & Hs & Hp & Hr).
+  apply (begin_after_preds_ended tid tid_eq_dec (instances P) (preds P) (succs P) Hc Hs).
+Qed.
+
+Theorem first_quiescent_all_done P : wf_first_match P = true ->
+  forall evs, ptg_quiescent P evs -> forall t, In t (instances P) -> st tid (ptg_run P evs) t = Done.
+Proof.
+  intros H evs. destruct (wf_first_engine P H) as (Hnd & Hc & Hs & Hp & Hr).
+  apply (quiescent_all_done tid tid_eq_dec (instances P) (preds P) (succs P) Hc Hs Hp (ptg_rank P) Hr).
+Qed.
+
+Theorem first_complete_run_once P : wf_first_match P = true ->
+  forall evs, ptg_quiescent P evs -> Permutation (executed P evs) (instances P).
+Proof.
+  intros H evs. destruct (wf_first_engine P H) as (Hnd & Hc & Hs & Hp & Hr).
+  intros Q. apply (quiescent_executed_once tid tid_eq_dec (instances P) (preds P) (succs P) Hc Hs Hp (ptg_rank P) Hr evs Hnd Q).
+Qed.
+
+Theorem first_progress P : wf_first_match P = true ->
+  forall evs t, In t (instances P) -> st tid (ptg_run P evs) t <> Done ->
+  exists u, In u (instances P) /\
+    (st tid (ptg_run P evs) u = Ready \/ st tid (ptg_run P evs) u = Running \/ st tid (ptg_run P evs) u = Waiting 0).
+Proof.
+  intros H evs. destruct (wf_first_engine P H) as (Hnd & Hc & Hs & Hp & Hr).
+  apply (not_all_done_enabled tid tid_eq_dec (instances P) (preds P) (succs P) Hc Hs Hp (ptg_rank P) Hr).
+Qed.
